@@ -29,6 +29,11 @@ function that builds the protocol with the caller's factory and hands it a fake 
   on_close  False: no close callback;   mode = pull: no message callback
   factory   itch/ouch/sqf (see above);  soup_factory: soup.connect_async gets the caller's `session_factory`;  ctimeout: `connect_timeout`
   fixver    42 | 44 | 50: the FIX session class the caller's factory builds
+  before    the attempts the SAME asyncio task made earlier (a list of scenarios, each run and judged like any other): a reconnect loop
+            whose watchdog cancelled an attempt and which caught that CancelledError by hand (`uncancel`: and called `Task.uncancel()`),
+            whose attempt timed out through `asyncio.wait_for` (cancel = timeout) / `async with asyncio.timeout()` (cancel = timeout_ctx),
+            was refused, never connected, was rejected, dropped, or returned a session that was used and closed (`close_by: caller`: by
+            the task itself) — what a task carries from one attempt to the next (`Task.cancelling()`, its context) is no input of C11
 
 The oracle is the statement of C11: the attempt returns an active, logged-in session — login request written first, heartbeating
 started (a client heartbeat is written within two intervals of silence), no application message handed to a callback before the
@@ -1037,7 +1042,7 @@ def history_scenarios(kind, kinds, rng, full, thorough):
     out = []
     names = earlier_attempts(kind)
     later = later_attempts(kind, rng, full)
-    core = [sc for sc in later_attempts(kind, rng, False) if 'delay' not in sc]
+    core = later_attempts(kind, rng, False) if full else later          # (every offset / a seeded sample of the offsets)
     # 1. after a hand-caught cancellation: everything (the fully enumerated connector: every offset)
     for sc in (later if full else core):
         out.append(dict(sc, before=[names['caught']]))
@@ -1154,8 +1159,9 @@ def shrink(sc, what):
                 else:
                     i += 1
             for i, e in enumerate(cur['before']):
-                for plain in earlier_attempts(cur['kind']).values():
-                    if plain != e and len(plain) <= len(e):
+                plains = list(earlier_attempts(e['kind']).values())
+                for plain in ([] if e in plains else plains):
+                    if len(plain) <= len(e):
                         cand = dict(cur, before=cur['before'][:i] + [plain] + cur['before'][i + 1:])
                         if still(cand):
                             cur = cand
@@ -1200,9 +1206,14 @@ def run_connectors(ctx):
     # the connector's own parameters (requested sequence x accepted sequence x ...): small, never sampled away
     for k in kinds:
         cases.extend(param_scenarios(k, random.Random(rng.random()), thorough=not quick))
+    # attempt histories: the same task made other attempts before (cancelled and caught, timed out, refused, accepted and closed, ...)
+    for k in kinds:
+        cases.extend(history_scenarios(k, kinds, random.Random(rng.random()), full=(not quick) or k == pick, thorough=not quick))
     n_rand = 300 if quick else 6000
     for _ in range(n_rand):
-        cases.append(random_scenario(random.Random(rng.random()), kinds))
+        r = random.Random(rng.random())
+        sc = random_scenario(r, kinds)
+        cases.append(random_history(r, kinds, sc) if r.random() < 0.25 else sc)
     n_bad = 0
     for sc in cases:
         rep = {'kind': 'login-connector', 'login_app': sc}
@@ -1230,6 +1241,15 @@ def run_connectors(ctx):
             ctx.count('connector-param:default-session-class')
         if sc.get('pre'):
             ctx.count('connector-before-reply:' + '+'.join(sc['pre']))
+        if sc.get('before'):
+            ctx.count(f'connector-history:{len(sc["before"]) + 1}-attempts-in-one-task')
+            ctx.count('connector-history:caller-cancelling=' + str(out.get('task_cancelling')))
+            for e, o in zip(sc['before'], out.get('earlier', [])):
+                ec = e.get('cancel')
+                ctx.count('connector-history-earlier:' + str(o.get('outcome')).split(':')[0]
+                          + (('-uncancelled' if e.get('uncancel') else '-caught') if o.get('outcome') == 'cancelled' else '')
+                          + (('-' + ec[0]) if ec and ec[0].startswith('timeout') and o.get('outcome') == 'timeout' else '')
+                          + ('-closed-by-caller' if o.get('outcome') == 'session' and e.get('close_by') == 'caller' else ''))
         if sc.get('fix_omit') or sc.get('fix_extra'):
             ctx.count('connector-fix-logon:' + ('required-missing' if sc.get('fix_omit') else 'complete')
                       + ('+unknown-tag' if logon_deviates(dict(sc, fix_omit=[])) else '') + ('+optional' if sc.get('fix_extra') else ''))
@@ -1239,11 +1259,20 @@ def run_connectors(ctx):
             small = shrink(sc, v[0]) if n_bad <= 3 else sc
             ctx.violation('connector ' + sc['kind'] + ': ' + v[0], {'kind': 'login-connector', 'login_app': small})
     ctx.cov['connector_scenarios'] = len(cases)
+    ctx.cov['connector_histories'] = sum(1 for sc in cases if sc.get('before'))
+    ctx.notes.append('attempt histories in one task: Props/C11Trace quantifies over all event lists from the FRESH session of one attempt, and '
+                     'every attempt of a history is a separate session object, so the per-attempt theorems speak about each of them; what '
+                     'the model has no notion of is state of the CALLING task that outlives an attempt (Task.cancelling() after a '
+                     'hand-caught cancellation, the task\'s context) — that such state is no input of an attempt is checked on the '
+                     'implementation by the property oracle only')
     ctx.notes.append('connectors (soup/fix/itch/ouch/sqf/asn1 connect_async through a replaced create_connection): reply split at every byte '
                      'offset, reply followed at once by data, disconnect after every byte offset, cancellation before the reply and at the '
                      'reader poll after it + 0..5 turns, wait_for timeouts; the connector\'s own parameters: requested sequence (default, 0, 1, 5, '
                      'large) x sequence stated by the acceptance (equal / different) x session names x heartbeat intervals x callbacks x '
-                     'session_factory / default class; the leftovers of every failed attempt inspected; '
+                     'session_factory / default class; the leftovers of every failed attempt inspected; attempt histories: 2-4 attempts made '
+                     'by ONE task (earlier ones cancelled and caught by hand with/without uncancel(), timed out through wait_for / '
+                     'asyncio.timeout, refused, unreachable, rejected, dropped, accepted and closed), the last one under every reply / '
+                     'disconnect offset / cancellation point, every attempt judged by the statement for that attempt alone; '
                      'property oracle only (the model tie is the soup step-log replay)'
                      + ('' if asn1_available() else ' — asn1tools unavailable: ASN.1 connector skipped'))
 
@@ -1254,9 +1283,13 @@ def replay(ctx, rep):
     ctx.cov['rule'] = 'replay of a connector scenario'
     ctx.case('login-app-replay')
     ctx.case('replay-marker')
-    print('scenario:', sc)
+    for i, (e, o) in enumerate(zip(sc.get('before', []), out.get('earlier', []))):
+        print(f'earlier attempt {i + 1} of the same task:', e)
+        print('  events:', [(x[0], x[1][:12] if x[0] == 'w' else x[1:]) for x in o['ev']])
+        print('  ', {k: v for k, v in o.items() if k != 'ev'})
+    print('scenario:', {k: v for k, v in sc.items() if k != 'before'})
     print('events:', [(e[0], e[1][:12] if e[0] == 'w' else e[1:]) for e in out['ev']])
-    print({k: v for k, v in out.items() if k != 'ev'})
+    print({k: v for k, v in out.items() if k not in ('ev', 'earlier')})
     for what in oracle(sc, out):
         print('ORACLE:', what)
         ctx.violation('connector ' + sc['kind'] + ': ' + what, {'kind': 'login-connector', 'login_app': sc})
